@@ -15,6 +15,7 @@ EXPLANATION = (
     "exactly the linear form of the IEEE 1588 formula table (engine/spec/formulas.json): operand identity, sign of "
     "each timestamp, correction field and asymmetry. MEAS-5: no value passes through floating point except the "
     "literal divisor."
+    ' MEAS-9 (shared with C10 TX-3): the sequence-id generator returns the current value and advances by wrapping_add(1).'
 )
 NOT_DECIDED = ("numeric exactness of the fixed-point operations to sub-nanosecond (C16 decides the scale clauses); "
                "that the compared ids are the right ones at run time")
